@@ -251,8 +251,11 @@ type C01Plan struct {
 	// Reject-1 once (nothing accepted, temporary error) and works again
 	// afterwards; with Retry the caller writes that record again. The file
 	// must then hold exactly the records whose Write succeeded.
-	Reject int  `json:"reject,omitempty"`
-	Retry  bool `json:"retry,omitempty"`
+	Reject int `json:"reject,omitempty"`
+	// RejectOffset > 0: it is a later call of that Write that is refused (the
+	// record is torn if the writer stops there, as it should).
+	RejectOffset int  `json:"reject_offset,omitempty"`
+	Retry        bool `json:"retry,omitempty"`
 }
 
 var phredEncodings = []alphabet.Encoding{alphabet.Sanger, alphabet.Illumina1_3, alphabet.Illumina1_5, alphabet.Illumina1_8, alphabet.Illumina1_9}
@@ -362,6 +365,9 @@ func genC01(r *simrt.RNG) *Case {
 		}
 	} else if len(pl.Recs) > 0 && r.Intn(6) == 0 {
 		pl.Reject = 1 + r.Intn(len(pl.Recs))
+		if r.Intn(3) == 0 {
+			pl.RejectOffset = r.Range(1, 6) // a later call of the same Write
+		}
 		pl.Retry = r.Bool()
 	}
 	return &Case{Prop: "C01", Kind: pl.Format, Plan: marshalPlan(pl)}
@@ -476,11 +482,12 @@ func runReject(pl *C01Plan, res *Result) *simrt.Violation {
 	}
 	var written []SeqRec
 	var v *simrt.Violation
+	torn := false
 	pv := guard(func() {
 		for i := 0; i < len(pl.Recs); i++ {
 			rec := pl.Recs[i]
 			if i == pl.Reject-1 && !sink.Rejected {
-				sink.RejectCall = sink.NCalls + 1
+				sink.RejectCall = sink.NCalls + 1 + pl.RejectOffset
 			}
 			before := len(sink.Buf)
 			n, err := w.Write(buildSeq(rec, pl))
@@ -490,7 +497,8 @@ func runReject(pl *C01Plan, res *Result) *simrt.Violation {
 			}
 			if err != nil {
 				if len(sink.Buf) != before {
-					return // bytes of a failed record reached the medium: nothing more can be asked
+					torn = true // bytes of a failed record reached the medium: nothing more can be asked
+					return
 				}
 				if pl.Retry {
 					pl.Retry = false
@@ -505,7 +513,7 @@ func runReject(pl *C01Plan, res *Result) *simrt.Violation {
 	if pv != nil {
 		return pv
 	}
-	if v != nil || !sink.Rejected {
+	if v != nil || !sink.Rejected || torn {
 		return v
 	}
 	res.Fired = append(res.Fired, simrt.IORecord{Kind: "write-call-refused-once"})
@@ -518,7 +526,11 @@ func runReject(pl *C01Plan, res *Result) *simrt.Violation {
 		v = compareSeqs(&q, got)
 	}
 	if v != nil {
-		v.Text = "after the medium refused one call at a record boundary (the failed Write emitted nothing): " + v.Text
+		if pl.RejectOffset > 0 {
+			v.Text = fmt.Sprintf("after the medium refused call %d of one Write (every Write that returned nil counts as written): ", pl.RejectOffset+1) + v.Text
+		} else {
+			v.Text = "after the medium refused one call at a record boundary (the failed Write emitted nothing): " + v.Text
+		}
 		v.Site += "-after-refused-call"
 	}
 	return v
